@@ -16,15 +16,16 @@ FILES = {
     "Subject": ["subject/subject.py", "subject/innersubscription.py"],
     "BehaviorSubject": ["subject/behaviorsubject.py", "subject/subject.py", "subject/innersubscription.py"],
     "AsyncSubject": ["subject/asyncsubject.py", "subject/subject.py", "subject/innersubscription.py"],
+    "ReplaySubject": ["subject/replaysubject.py", "subject/subject.py", "subject/innersubscription.py"],
 }
 PROGS_Q = [("C",), ("N1", "C"), ("N1", "E"), ("N1", "D"), ("N1", "N2")]
 PROGS_T = PROGS_Q + [("E",), ("D",), ("N1", "N2", "C"), ("N1", "N2", "E"), ("N1", "C", "N2")]
 
 
 def make(kind):
-    from reactivex.subject import AsyncSubject, BehaviorSubject, Subject
+    from reactivex.subject import AsyncSubject, BehaviorSubject, ReplaySubject, Subject
 
-    return {"Subject": Subject, "BehaviorSubject": lambda: BehaviorSubject(0), "AsyncSubject": AsyncSubject}[kind]()
+    return {"Subject": Subject, "BehaviorSubject": lambda: BehaviorSubject(0), "AsyncSubject": AsyncSubject, "ReplaySubject": lambda: ReplaySubject(2)}[kind]()
 
 
 class Err(Exception):
@@ -74,23 +75,42 @@ def sequential_outcomes(kind, prog):
     return outs
 
 
+def sequential_dispose_outcomes(kind, prog):
+    """The subscriber is there from the start.  A dispose() running concurrently with a broadcast may take effect between any
+    two notifications (also between the value and the completion one AsyncSubject.on_completed call delivers), so every prefix
+    of the log without dispose is admissible - and nothing else."""
+    s = make(kind)
+    log: list = []
+    s.subscribe(lambda v: log.append(("N", v)), lambda e: log.append(("E", type(e).__name__)), lambda: log.append(("C",)))
+    for op in prog:
+        apply(s, op)
+    return {tuple(log[:i]) for i in range(len(log) + 1)}
+
+
 class H:
     allow_thread_errors = False
 
-    def __init__(self, kind, prog):
-        self.kind, self.prog = kind, prog
-        self.name = f"subject-race|{kind}|" + ",".join(prog)
-        self.sig = f"{kind}-subscribe-race"
+    def __init__(self, kind, prog, mode="subscribe"):
+        self.kind, self.prog, self.mode = kind, prog, mode
+        self.name = f"subject-race|{kind}|" + ",".join(prog) + ("" if mode == "subscribe" else "|dispose")
+        self.sig = f"{kind}-{mode}-race"
         self.focus = ilv.focus_files(*FILES[kind])
         self.admissible = None
 
     def setup(self, run):
         if self.admissible is None:
-            self.admissible = sequential_outcomes(self.kind, self.prog)
-        return {"s": make(self.kind), "log": []}
+            self.admissible = (sequential_outcomes if self.mode == "subscribe" else sequential_dispose_outcomes)(self.kind, self.prog)
+        st = {"s": make(self.kind), "log": []}
+        if self.mode == "dispose":
+            log = st["log"]
+            st["d"] = st["s"].subscribe(lambda v: log.append(("N", v)), lambda e: log.append(("E", type(e).__name__)), lambda: log.append(("C",)))
+        return st
 
     def bodies(self, st):
         def a():
+            if self.mode == "dispose":
+                st["d"].dispose()
+                return
             subscribe(st["s"], st["log"])
 
         def b():
@@ -110,20 +130,30 @@ class H:
             return []
         got = tuple(x.state["log"])
         if got not in self.admissible:
-            return [(f"{self.kind}|subscribe-race|not-atomic", f"subscriber racing {','.join(self.prog)} got {list(got)}; every sequential placement of the subscribe gives one of {sorted(map(list, self.admissible))}")]
+            return [(f"{self.kind}|{self.mode}-race|not-atomic", f"{self.mode} racing {','.join(self.prog)}: subscriber got {list(got)}; every sequential placement of the {self.mode} call gives one of {sorted(map(list, self.admissible))}")]
         return []
 
 
+DPROGS_Q = [("C",), ("N1", "E")]
+DPROGS_T = [("C",), ("E",), ("N1", "C"), ("N1", "E"), ("N1", "N2"), ("N1", "D")]
+
+
 def harnesses(kind, tier):
-    return [H(kind, p) for p in (PROGS_Q if tier == "quick" else PROGS_T)]
+    return [H(kind, p) for p in (PROGS_Q if tier == "quick" else PROGS_T)] + [H(kind, p, "dispose") for p in (DPROGS_Q if tier == "quick" else DPROGS_T)]
+
+
+def PB_of(tier, h):
+    # the unsubscribe-vs-termination race needs two preemptions (test, other thread clears, remove); those harnesses are small
+    if tier != "quick" or h.mode == "dispose" or (h.kind == "ReplaySubject" and h.prog == ("C",)):
+        return 2
+    return 1
 
 
 def shard(part, shard_i, nshards, tier, seed, deadline, kind):
     ilv.install()
-    PB = 1 if tier == "quick" else 2
     for i, h in enumerate(harnesses(kind, tier)):
         if (i + seed) % nshards == shard_i:
-            ilvrun.explore_all(part, [h], 0, 1, PB, 0, deadline, horizon=5.0)
+            ilvrun.explore_all(part, [h], 0, 1, PB_of(tier, h), 0, deadline, horizon=5.0)
 
 
 def run_part(ctx, kind):
@@ -134,8 +164,9 @@ def run_part(ctx, kind):
     ctx.cov["states"] = ctx.cov.get("states", 0) + ex
     ctx.cov["transitions"] = ctx.cov.get("transitions", 0) + ctx.total.counters.get("schedule_points", 0)
     ctx.cov["traces_validated_against_impl"] = ctx.cov.get("traces_validated_against_impl", 0) + ex
-    ctx.cov["e3_subscribe_race"] = {"schedules_explored": ex, "PB": 1 if ctx.tier == "quick" else 2, "programs": [",".join(h.prog) for h in harnesses(kind, ctx.tier)]}
-    ctx.assumptions = list(ctx.assumptions) + ["E3 part: preemption at lock operations and line boundaries of the subject's source files; oracle = some sequential placement of subscribe() on the same real class"]
+    ctx.cov["e3_subscribe_race"] = {"schedules_explored": ex, "PB": {h.name: PB_of(ctx.tier, h) for h in harnesses(kind, ctx.tier)}}
+    ctx.assumptions = list(ctx.assumptions) + ["E3 part: preemption at lock operations and line boundaries of the subject's source files; oracle = some sequential placement of "
+                                               "subscribe() on the same real class (dispose family: some prefix of the undisturbed log); no exception may escape a call"]
 
 
 def replay(kind, case):
@@ -143,7 +174,6 @@ def replay(kind, case):
     for tier in ("quick", "thorough"):
         for h in harnesses(kind, tier):
             if h.name == case["harness"]:
-                h.setup(None) if False else None
-                h.admissible = sequential_outcomes(h.kind, h.prog)
+                h.admissible = (sequential_outcomes if h.mode == "subscribe" else sequential_dispose_outcomes)(h.kind, h.prog)
                 return ilvrun.replay_harness(h, case)
     return []
